@@ -207,6 +207,19 @@ def statusOf (fixed : Bool) (c : Checker) (d : TaskDef) (r : Rcd) (fs : FS) (res
 def removesRecord (c : Checker) (d : TaskDef) (r : Rcd) (fs : FS) (resOf : Name → Option Res) : Bool :=
   !earlyRun d r.getValues resOf fs && checkerChanged c r
 
+/-- the record the file loop of `get_status(get_log=True)` reads: already dropped when the checker changed -/
+def logRcd (c : Checker) (r : Rcd) : Rcd := if checkerChanged c r then Rcd.empty else r
+
+/-- `Dependency.get_status(task, tasks, get_log=True).status` (`doit info`): no early exit, every check runs.
+    A missing dependency sets `error`, but a later `changed_file_dep` reason sets `run` again; a state of the wrong
+    shape raises whatever else holds. -/
+def statusLog (c : Checker) (d : TaskDef) (r : Rcd) (fs : FS) (resOf : Name → Option Res) : Status :=
+  if d.deps.any (depIs .crash c (logRcd c r) fs) then .crash
+  else if d.deps.any (depIs .modified c (logRcd c r) fs) then .run
+  else if d.deps.any (depMissing fs) then .error
+  else if earlyRun d r.getValues resOf fs || checkerChanged c r || depsChanged true (logRcd c r) d.deps then .run
+  else .upToDate
+
 /-- what the value savers registered by the uptodate items put into `task.values` (`save_extra_values`);
     `config_changed` savers run in item order, the last digest wins -/
 def cfgOf : List Utd → Option Nat
@@ -343,6 +356,14 @@ def finish (s : St) (t : Name) (ok : Bool) (res : Option Res) : St :=
 def peek (s : St) (t : Name) : St :=
   if removesRecord s.checker (s.defs t) (s.rcd t) s.fs s.resOf then erase s t else s
 
+def St.statusLog (s : St) (t : Name) : Status :=
+  Status.statusLog s.checker (s.defs t) (s.rcd t) s.fs s.resOf
+
+/-- `doit info t`: `get_status(get_log=True)`; the record is dropped whenever the checker changed -/
+def info (s : St) (t : Name) : St :=
+  if s.statusLog t == .crash then { s with crashed := true }
+  else if checkerChanged s.checker (s.rcd t) then erase s t else s
+
 /-- `Runner.select_task` + `execute_task` + `process_task_result` for one task -/
 def runTask (fixed : Bool) (s : St) (t : Name) (ok always : Bool) (writes : List (Path × Nat × Nat))
     (res : Option Res) : St :=
@@ -381,8 +402,12 @@ inductive Op
   | forget (t : Name)
   | ignore (t : Name)
   | resetDep (t : Name)
-  /-- a command that only calls `get_status` (`list -s`) -/
+  /-- a command that only calls `get_status` (`list -s`).  These commands never `close()` the DB: the removal of
+      the record on a checker change is persisted only by a backend whose `remove` is write-through (dbm); for
+      json / sqlite3 the command is no operation at all on the stored state. -/
   | peek (t : Name)
+  /-- `doit info t` (`get_log=True`) -/
+  | info (t : Name)
   | switchChecker (c : Checker)
 
 def step (fixed : Bool) (s : St) (op : Op) : St :=
@@ -400,6 +425,7 @@ def step (fixed : Bool) (s : St) (op : Op) : St :=
     | .ignore t => { s with rcd := fun k => if k = t then { s.rcd t with ign := true } else s.rcd k }
     | .resetDep t => resetDep fixed s t
     | .peek t => if s.status fixed t == .crash then { s with crashed := true } else peek s t
+    | .info t => info s t
     | .switchChecker c => { s with checker := c }
 
 def runHist (fixed : Bool) (h : List Op) : St := h.foldl (step fixed) St.init
